@@ -231,7 +231,19 @@ Definition to_out {A} (f : A -> out) (x : heap * res A) : heap * out :=
   | (h, OutOfFuel) => (h, RFuel)
   end.
 
-Definition step (h : heap) (o : op) : heap * out :=
+(* Go pointers always refer to allocated cells: a history may only mention nil or addresses that
+   New/Of have handed out.  Anything else is answered [RFault] without running the operation. *)
+Definition ptr_ok (h : heap) (p : ptr) : bool :=
+  match p with None => true | Some a => Nat.ltb a (size h) end.
+
+Definition op_ptrs (o : op) : list ptr :=
+  match o with
+  | ONew _ | OOf _ => []
+  | OJoin r s => [r; s]
+  | OPop r | ONext r | OPrev r | OAt r _ | OPeek r _ | OLen r | OEach r _ | OIsEmpty r => [r]
+  end.
+
+Definition exec (h : heap) (o : op) : heap * out :=
   match o with
   | ONew n => to_out RPtr (new n h)
   | OOf vs => to_out RPtr (of vs h)
@@ -246,6 +258,9 @@ Definition step (h : heap) (o : op) : heap * out :=
   | OIsEmpty r => to_out RBool (is_empty r h)
   end.
 
+Definition step (h : heap) (o : op) : heap * out :=
+  if forallb (ptr_ok h) (op_ptrs o) then exec h o else (h, RFault).
+
 Fixpoint run (h : heap) (ops : list op) : list out :=
   match ops with
   | [] => []
@@ -253,3 +268,19 @@ Fixpoint run (h : heap) (ops : list op) : list out :=
   end.
 
 End Model.
+
+Arguments val {T}. Arguments prev {T}. Arguments next {T}. Arguments mkCell {T}.
+Arguments size {T}. Arguments empty_heap {T}. Arguments lookup {T}. Arguments upd {T}.
+Arguments ret {T A}. Arguments bind {T A B}. Arguments out_of_fuel {T A}. Arguments heap_size {T}.
+Arguments load {T}. Arguments store {T}.
+Arguments get_next {T}. Arguments get_prev {T}. Arguments get_val {T}.
+Arguments set_next {T}. Arguments set_prev {T}. Arguments set_val {T}.
+Arguments of_loop {T}. Arguments join {T}. Arguments pop {T}. Arguments next_of {T}. Arguments prev_of {T}.
+Arguments at_loop {T}. Arguments at_ {T}. Arguments scan_loop {T A}. Arguments scan {T A}.
+Arguments each {T}. Arguments len {T}. Arguments is_empty {T}.
+Arguments ONew {T}. Arguments OOf {T}. Arguments OJoin {T}. Arguments OPop {T}. Arguments ONext {T}.
+Arguments OPrev {T}. Arguments OAt {T}. Arguments OPeek {T}. Arguments OLen {T}. Arguments OEach {T}.
+Arguments OIsEmpty {T}.
+Arguments RPtr {T}. Arguments RPeek {T}. Arguments RLen {T}. Arguments REach {T}. Arguments RBool {T}.
+Arguments RPanic {T}. Arguments RFault {T}. Arguments RFuel {T}.
+Arguments to_out {T A}. Arguments ptr_ok {T}. Arguments op_ptrs {T}.
